@@ -326,8 +326,8 @@ pub fn check_c10(bytes: &[u8], _s: &NormalizerSettings, ms: &CharsetMatches) -> 
                 }
             }
         }
-        let tied = hooks::mb_encoding_languages(m.encoding());
-        if let Some(t) = tied.first() {
+        let tied = tied_language(m.encoding());
+        if let Some(t) = tied.as_ref() {
             if langs.iter().any(|l| l != t) {
                 out.push(v("C10", format!("{} is tied to {:?} but lists {:?}", m.encoding(), t, langs)));
             }
@@ -366,18 +366,29 @@ pub fn check_c10(bytes: &[u8], _s: &NormalizerSettings, ms: &CharsetMatches) -> 
     out
 }
 
+/// the encodings the property ties to one language -- the property's own list, NOT the library's table
+pub fn tied_language(enc: &str) -> Option<&'static charset_normalizer_rs::entity::Language> {
+    let name = match enc {
+        "euc-kr" => "Korean",
+        "big5" | "gbk" | "gb18030" => "Chinese",
+        "euc-jp" | "shift_jis" | "iso-2022-jp" => "Japanese",
+        _ => return None,
+    };
+    hooks::language_by_name(name)
+}
+
 /// C10, most probable language of one match, by the cases the property states
 pub fn check_mpl_one(m: &CharsetMatch) -> Vec<Found> {
     let mut out = vec![];
     let langs = m.languages();
-    let tied = hooks::mb_encoding_languages(m.encoding());
+    let tied = tied_language(m.encoding());
     let mpl = m.most_probably_language();
     let expect = if let Some(l) = langs.first() {
         *l
     } else if m.suitable_encodings().contains(&"ascii".to_string()) {
         &charset_normalizer_rs::entity::Language::English
-    } else if let Some(t) = tied.first() {
-        *t
+    } else if let Some(t) = tied {
+        t
     } else if is_multi_byte_encoding(m.encoding()) {
         &charset_normalizer_rs::entity::Language::Unknown
     } else {
